@@ -3,7 +3,7 @@ From Coq Require Import Permutation Sorted.
 From ZV.Common Require Import Base.
 From ZV.C10 Require Import Model Spec ProofsPow2 ProofsRing ProofsHist ProofsVec ProofsValVec ProofsFixed.
 From ZV.Gen Require Import ConstsC10.
-From ZV.C10 Require Import ModelValVec32 ProofsValVec32 ModelArena ProofsArena ModelStrVec ProofsStrVec ModelFixedLen ProofsFixedLen ModelCases.
+From ZV.C10 Require Import ModelValVec32 ProofsValVec32 ModelArena ProofsArena ModelStrVec ProofsStrVec ModelFixedLen ProofsFixedLen ModelFastVecCopy ProofsFastVecCopy ModelCases.
 Open Scope N_scope.
 
 (* ensure_power_of_two (bit smearing) returns a power of two that is large enough, for every request up to 2^62 *)
@@ -563,3 +563,100 @@ Check fixedlen_push_refused_iff :
   forall n v l s, FV n v l ->
   (snd (flv_push n v s) = FErr <-> n < nlen s \/ 255 < nlen s \/ 16777216 <= nlen (concat l) + nlen s).
 Print Assumptions fixedlen_push_refused_iff.
+
+(* ===================== FastVec<T: Copy>: the SIMD / bulk paths (ModelFastVecCopy.v) ===================== *)
+
+(* fastvec_copy_refines_list: for every element type and size, every kernel triple meeting its contract (copy =
+   identity, fill = repeat, compare decides equality) and every history of push/pop/insert/remove/resize/clear/
+   shrink_to_fit/extend/extend_from_slice_fast/reserve/get/fill_range_fast/copy_from_slice_fast/ensure_capacity, the
+   Copy-type paths (temporary-buffer moves, bulk copies behind len, kernel fills, size thresholds) never read an
+   uninitialised slot, refuse exactly the out-of-range insert/remove/fill, and hold the sequence the list functions
+   give: the scalar path's vec_step, `firstn a l ++ repeat x (b - a) ++ skipn b l` for fill_range_fast(a, b, x),
+   and the source itself for copy_from_slice_fast *)
+Theorem fastvec_copy_refines_list :
+  forall (A : Type) esz (fast_copy : list A -> list A) (fast_fill : A -> nat -> list A)
+         (fast_compare : list A -> list A -> bool) (aeqb : A -> A -> bool),
+  (forall l, fast_copy l = l) -> (forall x n, fast_fill x n = repeat x n) ->
+  (forall x y, aeqb x y = true <-> x = y) ->
+  (forall a b, length a = length b -> (fast_compare a b = true <-> a = b)) ->
+  forall c (ops : list (cop A)),
+  exists v', fvc_run A esz fast_copy fast_fill (fv_with_capacity c) ops = Ok (v', snd (cvec_run A [] ops)) /\
+             V A v' (fst (cvec_run A [] ops)).
+Proof. exact ProofsFastVecCopy.fastvec_copy_refines_list_proof. Qed.
+Check fastvec_copy_refines_list :
+  forall (A : Type) esz (fast_copy : list A -> list A) (fast_fill : A -> nat -> list A)
+         (fast_compare : list A -> list A -> bool) (aeqb : A -> A -> bool),
+  (forall l, fast_copy l = l) -> (forall x n, fast_fill x n = repeat x n) ->
+  (forall x y, aeqb x y = true <-> x = y) ->
+  (forall a b, length a = length b -> (fast_compare a b = true <-> a = b)) ->
+  forall c (ops : list (cop A)),
+  exists v', fvc_run A esz fast_copy fast_fill (fv_with_capacity c) ops = Ok (v', snd (cvec_run A [] ops)) /\
+             V A v' (fst (cvec_run A [] ops)).
+Print Assumptions fastvec_copy_refines_list.
+
+(* fastvec_bulk_equals_scalar: on every well-formed vector, each operation of the Copy path that has a scalar
+   counterpart in Model.v (extend_from_slice_fast ~ extend) returns the same value and ends in the same len, the
+   same capacity and a pointwise equal buffer as the scalar path *)
+Theorem fastvec_bulk_equals_scalar :
+  forall (A : Type) esz (fast_copy : list A -> list A) (fast_fill : A -> nat -> list A)
+         (fast_compare : list A -> list A -> bool) (aeqb : A -> A -> bool),
+  (forall l, fast_copy l = l) -> (forall x n, fast_fill x n = repeat x n) ->
+  (forall x y, aeqb x y = true <-> x = y) ->
+  (forall a b, length a = length b -> (fast_compare a b = true <-> a = b)) ->
+  forall (v : fvec A) (l : list A) (o : cop A) (so : vop A), V A v l -> scalar_of A o = Some so ->
+  exists v1 v2 b2,
+    fvc_step A esz fast_copy fast_fill v o = Ok (v1, fst b2) /\ fv_step A v so = Ok (v2, b2) /\
+    vlen v1 = vlen v2 /\ vcap v1 = vcap v2 /\ (forall j, vbuf v1 j = vbuf v2 j).
+Proof. exact ProofsFastVecCopy.fastvec_bulk_equals_scalar_proof. Qed.
+Check fastvec_bulk_equals_scalar :
+  forall (A : Type) esz (fast_copy : list A -> list A) (fast_fill : A -> nat -> list A)
+         (fast_compare : list A -> list A -> bool) (aeqb : A -> A -> bool),
+  (forall l, fast_copy l = l) -> (forall x n, fast_fill x n = repeat x n) ->
+  (forall x y, aeqb x y = true <-> x = y) ->
+  (forall a b, length a = length b -> (fast_compare a b = true <-> a = b)) ->
+  forall (v : fvec A) (l : list A) (o : cop A) (so : vop A), V A v l -> scalar_of A o = Some so ->
+  exists v1 v2 b2,
+    fvc_step A esz fast_copy fast_fill v o = Ok (v1, fst b2) /\ fv_step A v so = Ok (v2, b2) /\
+    vlen v1 = vlen v2 /\ vcap v1 = vcap v2 /\ (forall j, vbuf v1 j = vbuf v2 j).
+Print Assumptions fastvec_bulk_equals_scalar.
+
+(* PartialEq (length check, fast_compare on the byte view when beneficial, slice equality otherwise) decides
+   equality of the held sequences *)
+Theorem fastvec_copy_eq_decides :
+  forall (A : Type) esz (fast_copy : list A -> list A) (fast_fill : A -> nat -> list A)
+         (fast_compare : list A -> list A -> bool) (aeqb : A -> A -> bool),
+  (forall l, fast_copy l = l) -> (forall x n, fast_fill x n = repeat x n) ->
+  (forall x y, aeqb x y = true <-> x = y) ->
+  (forall a b, length a = length b -> (fast_compare a b = true <-> a = b)) ->
+  forall (v w : fvec A) (l m : list A), V A v l -> V A w m ->
+  exists b, fvc_eq A esz fast_compare aeqb v w = Ok b /\ (b = true <-> l = m).
+Proof. exact ProofsFastVecCopy.fvc_eq_spec. Qed.
+Check fastvec_copy_eq_decides :
+  forall (A : Type) esz (fast_copy : list A -> list A) (fast_fill : A -> nat -> list A)
+         (fast_compare : list A -> list A -> bool) (aeqb : A -> A -> bool),
+  (forall l, fast_copy l = l) -> (forall x n, fast_fill x n = repeat x n) ->
+  (forall x y, aeqb x y = true <-> x = y) ->
+  (forall a b, length a = length b -> (fast_compare a b = true <-> a = b)) ->
+  forall (v w : fvec A) (l m : list A), V A v l -> V A w m ->
+  exists b, fvc_eq A esz fast_compare aeqb v w = Ok b /\ (b = true <-> l = m).
+Print Assumptions fastvec_copy_eq_decides.
+
+(* fixed findings (commits e1bd0ea, d3bd929): on the pinned tree ensure_capacity(1) on [1; 2] aborts the process
+   (outcome UB), so does copy_from_slice_fast(&[9]), and copy_from_slice_fast(&[]) leaves both elements; the
+   repaired code yields [9] and []  *)
+Theorem fastvec_copy_from_refuted :
+  let v12 := fv_push N (fv_push N fv_new 1) 2 in
+  fvc_step_with N 8 k_copy k_fill true v12 (CCopyFrom [9]) = UB /\
+  fvc_step_with N 8 k_copy k_fill true v12 (CEnsure 1) = UB /\
+  match fvc_step_with N 8 k_copy k_fill true v12 (CCopyFrom []) with Ok (v, _) => vlen v = 2 | UB => False end /\
+  match fvc_step N 8 k_copy k_fill v12 (CCopyFrom [9]) with Ok (v, _) => vlen v = 1 /\ vbuf v 0 = Some 9 /\ vbuf v 1 = None | UB => False end /\
+  match fvc_step N 8 k_copy k_fill v12 (CCopyFrom []) with Ok (v, _) => vlen v = 0 /\ vbuf v 0 = None | UB => False end.
+Proof. exact ProofsFastVecCopy.fastvec_copy_from_refuted_proof. Qed.
+Check fastvec_copy_from_refuted :
+  let v12 := fv_push N (fv_push N fv_new 1) 2 in
+  fvc_step_with N 8 k_copy k_fill true v12 (CCopyFrom [9]) = UB /\
+  fvc_step_with N 8 k_copy k_fill true v12 (CEnsure 1) = UB /\
+  match fvc_step_with N 8 k_copy k_fill true v12 (CCopyFrom []) with Ok (v, _) => vlen v = 2 | UB => False end /\
+  match fvc_step N 8 k_copy k_fill v12 (CCopyFrom [9]) with Ok (v, _) => vlen v = 1 /\ vbuf v 0 = Some 9 /\ vbuf v 1 = None | UB => False end /\
+  match fvc_step N 8 k_copy k_fill v12 (CCopyFrom []) with Ok (v, _) => vlen v = 0 /\ vbuf v 0 = None | UB => False end.
+Print Assumptions fastvec_copy_from_refuted.
